@@ -268,6 +268,75 @@ package goose
 //@   may_reject
 //@   ensures [dependency on the struct recorded] depset[ref(ctx.dep)][info.name]
 
+// ---- emission order (C04): every declaration is emitted once, after everything it mentions --------
+// Decls emits the declarations depth first. `emitted` is the ghost set of declarations whose Coq
+// text has been appended to the output (set at the call of filterImports, whose result is what is
+// appended); gen(g, s) && !emitted[s] are the declarations in progress (on the recursion stack).
+// The property's hypothesis "the dependency graph is acyclic" is a rank function decreasing along
+// every edge (a finite graph is acyclic iff it has one); it is assumed where the graph is complete
+// (entry of Decls' emission loop) and nowhere else.
+
+//@ ghost var emitted map[declId]bool
+//@ ghost func rank(x declId) Int
+//@ ghost func gen(g map[declId]bool, s declId) bool = has(g, s) && g[s]
+//@ ghost func wellranked(dd map[declId][]string, nd map[string]declId) bool = forall x declId, k int :: 0 <= k && k < len(dd[x]) && has(dd, x) && has(nd, dd[x][k]) ==> rank(nd[dd[x][k]]) < rank(x)
+
+//@ ghost func depsalloc(dd map[declId][]string) bool = forall x declId :: has(dd, x) && len(dd[x]) > 0 ==> allocated(dd[x])
+
+//@ func filterImports
+//@   ensures [C04 imports and the other declarations partition the group: nothing is dropped] len(result.0) + len(result.1) == len(decls)
+//@   modifies fresh
+//@   loop 1 invariant [C04 every declaration so far is kept] len(nonImports) + len(imports) == rangeindex + 1 && rangeindex < len(decls)
+//@ func (Ctx).Decls$1
+//@   funcvalue processDecl = (Ctx).Decls$1
+//@   let g = *generated
+//@   let dd = *declDeps
+//@   let nd = *nameDecls
+//@   let deps = dd[id]
+//@   requires [C04 captured variables are distinct] decls != fs && imports != fs && decls != imports
+//@   requires [C04 the dependency graph is ranked] wellranked(dd, nd)
+//@   requires [C04 every declaration in progress ranks above this one] forall s declId :: {emitted[s]} gen(g, s) && !emitted[s] ==> rank(s) > rank(id)
+//@   requires [C04 only generated declarations are emitted] forall s declId :: {emitted[s]} emitted[s] ==> gen(g, s)
+//@   requires [C04 generated map exists] *generated != nil
+//@   requires [C04 dependency lists are allocated] depsalloc(dd)
+//@   ensures [C04 the declaration is emitted] emitted[id]
+//@   ensures [C04 nothing is un-emitted] forall s declId :: {emitted[s]} old(emitted[s]) ==> emitted[s]
+//@   ensures [C04 the declarations in progress are the same] forall s declId :: {emitted[s]} (gen(g, s) && !emitted[s]) <==> old(gen(g, s) && !emitted[s])
+//@   ensures [C04 only generated declarations are emitted] forall s declId :: {emitted[s]} emitted[s] ==> gen(g, s)
+//@   at_call filterImports [C04 definition comes after every definition it mentions] forall k int :: {deps[k]} 0 <= k && k < len(deps) && has(nd, deps[k]) ==> emitted[nd[deps[k]]]
+//@   at_call filterImports [C04 emitted exactly once] !emitted[id]
+//@   ghost_at_call filterImports emitted = emitted[id := true]
+//@   modifies cell(decls), cell(imports), cell(lastFile), map(*generated), emitted, fresh
+//@   loop 1 invariant [C04 in progress] gen(g, id) && !emitted[id]
+//@   loop 1 invariant [C04 dependencies so far are emitted] forall k int :: {deps[k]} 0 <= k && k <= rangeindex && has(nd, deps[k]) ==> emitted[nd[deps[k]]]
+//@   loop 1 invariant [C04 every dependency ranks below this declaration] forall k int :: {deps[k]} 0 <= k && k < len(deps) && has(nd, deps[k]) ==> rank(nd[deps[k]]) < rank(id)
+//@   loop 1 invariant [C04 nothing is un-emitted] forall s declId :: {emitted[s]} old(emitted[s]) ==> emitted[s]
+//@   loop 1 invariant [C04 in progress: the same plus this one] forall s declId :: {emitted[s]} (gen(g, s) && !emitted[s]) <==> (old(gen(g, s) && !emitted[s]) || s == id)
+//@   loop 1 invariant [C04 only generated declarations are emitted] forall s declId :: {emitted[s]} emitted[s] ==> gen(g, s)
+
+//@ func (Ctx).Decls
+//@   funcvalue processDecl = (Ctx).Decls$1
+//@   may_reject
+//@   ensures [C04 every declaration of every file is emitted] forall a int, b int :: 0 <= a && a < len(fs) && 0 <= b && b < len(fs[a].Ast.Decls) ==> emitted[struct(declId, a, b)]
+//@   loop 4 invariant [C04 the declarations of the files so far are emitted] forall a int, b int :: 0 <= a && a <= rangeindex && 0 <= b && b < len(fs[a].Ast.Decls) ==> emitted[struct(declId, a, b)]
+//@   loop 5 invariant [C04 the declarations of the files so far are emitted] forall a int, b int :: 0 <= a && a < fi && 0 <= b && b < len(fs[a].Ast.Decls) ==> emitted[struct(declId, a, b)]
+//@   loop 5 invariant [C04 the declarations of this file so far are emitted] forall b int :: 0 <= b && b <= rangeindex ==> emitted[struct(declId, fi, b)]
+//@   loop 1 invariant [C04 dependency lists are allocated] depsalloc(declDeps)
+//@   loop 2 invariant [C04 dependency lists are allocated] depsalloc(declDeps)
+//@   loop 3 invariant [C04 dependency lists are allocated] depsalloc(declDeps)
+//@   loop 4 invariant [C04 dependency lists are allocated] depsalloc(declDeps)
+//@   loop 5 invariant [C04 dependency lists are allocated] depsalloc(declDeps)
+//@   loop 4 ghost_init emitted
+//@   loop 4 hypothesis [C04 acyclic dependency graph: a rank decreases along every edge] wellranked(declDeps, nameDecls)
+//@   loop 4 invariant [C04 nothing is in progress between top-level visits] forall s declId :: gen(generated, s) ==> emitted[s]
+//@   loop 4 invariant [C04 only generated declarations are emitted] forall s declId :: emitted[s] ==> gen(generated, s)
+//@   loop 4 invariant [C04 the dependency graph is still ranked] wellranked(declDeps, nameDecls)
+//@   loop 4 invariant [C04 generated map exists] generated != nil
+//@   loop 5 invariant [C04 nothing is in progress between top-level visits] forall s declId :: gen(generated, s) ==> emitted[s]
+//@   loop 5 invariant [C04 only generated declarations are emitted] forall s declId :: emitted[s] ==> gen(generated, s)
+//@   loop 5 invariant [C04 the dependency graph is still ranked] wellranked(declDeps, nameDecls)
+//@   loop 5 invariant [C04 generated map exists] generated != nil
+
 // ---- FFI selection and header (C08) ---------------------------------------------------------------
 // packages.Visit is not under contract (x/tools): that it runs `pre` and `post` over the import
 // graph as documented is assumed. What is proved: the walk stops at FFI packages, each visited
